@@ -546,9 +546,25 @@ def run(ctx):
            nontrivial=False, detail={"float32": f32})
     # number_of_integer_digits summary
     util = ctx.src(UTIL).func("number_of_integer_digits")
-    utxt = ast.unparse(util)
-    summary_ok = ("astype(int" in utxt and "len(str(np.min(values)))" in utxt
-                  and "len(str(np.max(values)))" in utxt and "round" not in utxt and "abs" not in utxt)
+    # result = max over {len(str(min(int values))), len(str(max(int values)))} (a constant 0 among the candidates is harmless)
+    from ..exprnorm import summarize as _summ, canon as _canon, spec as _spec
+    usum = _summ(util)
+
+    def _max_terms(e):
+        if isinstance(e, ast.Call) and call_name(e) == "max" and not e.keywords:
+            out = []
+            for a in e.args:
+                out.extend(_max_terms(a))
+            return out
+        return [e]
+
+    ures = usum.result
+    if isinstance(ures, ast.IfExp) and isinstance(ures.body, ast.Constant) and ures.body.value == 0:
+        ures = ures.orelse      # empty input -> 0 digits
+    terms = [] if ures is None else [t for t in _max_terms(ures) if not (isinstance(t, ast.Constant) and t.value == 0)]
+    vparam = param_names(util)[0]
+    want = {repr(_spec(f"len(str(np.{m}({vparam}.astype(int, copy=False))))")) for m in ("min", "max")}
+    summary_ok = {repr(_canon(t)) for t in terms} == want
     if not summary_ok:
         raise AnalysisError("number_of_integer_digits no longer matches its summary "
                             "(len(str(int(min/max)))); re-derive the guard arithmetic")
